@@ -607,7 +607,7 @@ func (P) Generate(g *core.Gen) {
 		vlqVals = append(vlqVals, 1<<k, 1<<k-1, 1<<k+1, 1<<k+127, 1<<k+128)
 	}
 	vlqVals = append(vlqVals, ^uint64(0), ^uint64(0)-1, ^uint64(0)-127, ^uint64(0)-128)
-	for i := 0; i < g.N(1500, 100000); i++ {
+	for i := 0; i < g.N(1500, 40000); i++ {
 		v := r.U64() >> uint(r.Intn(64))
 		vlqVals = append(vlqVals, v)
 	}
@@ -624,7 +624,7 @@ func (P) Generate(g *core.Gen) {
 			g.Case("unvlq-overlong", true, "C15 unvlq "+hexTok(wrapVLQ(v, extra)))
 		}
 	}
-	for i := 0; i < g.N(800, 50000); i++ {
+	for i := 0; i < g.N(800, 30000); i++ {
 		b := r.Bytes(r.Intn(24))
 		if r.Bool() {
 			for j := range b {
@@ -666,10 +666,10 @@ func (P) Generate(g *core.Gen) {
 		18446744073000000000, 18000000000000000000, 10000000000000000000} {
 		amt("edge", a)
 	}
-	for i := 0; i < g.N(2500, 200000); i++ {
+	for i := 0; i < g.N(2500, 80000); i++ {
 		amt("random", genAmount(r))
 	}
-	for i := 0; i < g.N(1500, 100000); i++ {
+	for i := 0; i < g.N(1500, 50000); i++ {
 		x := r.U64() >> uint(r.Intn(64))
 		if r.Chance(1, 6) {
 			x = ^uint64(0) - uint64(r.Intn(40))
@@ -681,7 +681,7 @@ func (P) Generate(g *core.Gen) {
 	}
 
 	// ---- scripts, txouts, utxo entries, stxos
-	for i := 0; i < g.N(1800, 60000); i++ {
+	for i := 0; i < g.N(1800, 20000); i++ {
 		t, cl := genTxo(r)
 		sh := hexTok(t.script)
 		g.Case("scr-"+cl, len(t.script) > 0, "C15 scr "+sh)
@@ -702,7 +702,7 @@ func (P) Generate(g *core.Gen) {
 		}
 	}
 	// hostile script sizes behind every prefix
-	for rep := 0; rep < g.N(1, 20); rep++ {
+	for rep := 0; rep < g.N(1, 8); rep++ {
 		for _, hs := range hostileScripts(r) {
 			a := vlqBytes(blockchain.VerifCompressTxOutAmount(genAmount(r)))
 			g.Case("untxo-hostile", true, "C15 untxo "+hexTok(append(append([]byte{}, a...), hs...)))
@@ -716,14 +716,14 @@ func (P) Generate(g *core.Gen) {
 			g.Case("unstxo-hostile", true, "C15 unstxo "+hexTok(bytes.Join([][]byte{pre, a, hs}, nil)))
 		}
 	}
-	for i := 0; i < g.N(1500, 80000); i++ {
+	for i := 0; i < g.N(1500, 40000); i++ {
 		b := r.Bytes(r.Intn(60))
 		op := []string{"untxo", "unutxo", "unstxo"}[r.Intn(3)]
 		g.Case(op+"-random", len(b) > 0, fmt.Sprintf("C15 %s %s", op, hexTok(b)))
 	}
 
 	// ---- spend journal
-	for i := 0; i < g.N(500, 20000); i++ {
+	for i := 0; i < g.N(500, 8000); i++ {
 		n := r.Intn(7)
 		l := make([]txo, n)
 		var sl []blockchain.SpentTxOut
@@ -771,7 +771,7 @@ func (P) Generate(g *core.Gen) {
 	g.Case("unjournal-empty", true, "C15 unjournal 00 -")
 
 	// ---- best chain state
-	for i := 0; i < g.N(400, 20000); i++ {
+	for i := 0; i < g.N(400, 8000); i++ {
 		ws := new(big.Int).SetBytes(r.Bytes(r.Intn(40)))
 		switch r.Intn(8) {
 		case 0:
@@ -799,7 +799,7 @@ func (P) Generate(g *core.Gen) {
 	}
 
 	// ---- block index rows
-	for i := 0; i < g.N(300, 20000); i++ {
+	for i := 0; i < g.N(300, 8000); i++ {
 		ver := r.U32()
 		if r.Bool() {
 			ver = uint32(r.Pick(1, 2, 4, 0x20000000, 0x7fffffff, 0x80000000, 0xffffffff))
@@ -825,12 +825,12 @@ func (P) Generate(g *core.Gen) {
 	for n := 0; n < 100; n++ {
 		g.Case("v1row-len", n > 0, "C15 v1row "+hexTok(r.Bytes(n)))
 	}
-	for i := 0; i < g.N(100, 5000); i++ {
+	for i := 0; i < g.N(100, 3000); i++ {
 		g.Case("v1row", true, "C15 v1row "+hexTok(r.Bytes(92+r.Intn(20))))
 	}
 
 	// ---- outpoint keys (utxo set database key: hash || VLQ(index))
-	for i := 0; i < g.N(300, 10000); i++ {
+	for i := 0; i < g.N(300, 6000); i++ {
 		idx := r.U32() >> uint(r.Intn(32))
 		if r.Chance(1, 4) {
 			idx = uint32(r.Pick(0, 127, 128, 16511, 16512, 2113663, 2113664, 270549119, 270549120, 0xffffffff))
@@ -839,7 +839,7 @@ func (P) Generate(g *core.Gen) {
 	}
 
 	// ---- legacy v0 utxo entries (upgrade.go)
-	for i := 0; i < g.N(400, 20000); i++ {
+	for i := 0; i < g.N(400, 8000); i++ {
 		enc := encV0(r)
 		malformed(g, r, "unv0", enc, "", i%20 == 0 && len(enc) < 150)
 	}
@@ -855,7 +855,7 @@ func (P) Generate(g *core.Gen) {
 			g.Case("unv0-code", true, "C15 unv0 "+hexTok(bytes.Join([][]byte{{0x01, 0x05}, vlqBytes(code), r.Bytes(tail)}, nil)))
 		}
 	}
-	for i := 0; i < g.N(500, 30000); i++ {
+	for i := 0; i < g.N(500, 15000); i++ {
 		g.Case("unv0-random", true, "C15 unv0 "+hexTok(r.Bytes(1+r.Intn(60))))
 	}
 }
